@@ -11,6 +11,7 @@ import Scico.Proofs.LinSolveMat
 import Scico.Proofs.LinSolveScalar
 import Scico.Proofs.LinSolveCGConj
 import Scico.Proofs.LinSolveCGOpt
+import Scico.Proofs.LinSolveCGRate
 import Scico.Proofs.LinSolveJax
 import Scico.Proofs.LinSolveScalar2
 import Mathlib.Analysis.InnerProductSpace.Basic
@@ -198,6 +199,26 @@ theorem C14_cg_optimal (A : V →ₗ[𝕜] V) (M : V → V) (b x0 xs : V) (hxs :
       re (inner 𝕜 (xs - xk) (A (xs - xk))) ≤ re (inner 𝕜 (xs - (xk + v)) (A (xs - (xk + v)))) :=
   cg_optimal A M b x0 xs hxs hAs hAp hM k hrun v hv
 
+/-- **Convergence rate** (no preconditioner).  If `m ‖v‖² ≤ ⟪v, A v⟫ ≤ L ‖v‖²` with `0 < m ≤ L` (so `κ = L/m`), then while the loop
+    runs `‖x⋆ − x_k‖²_A ≤ (1 − m/L)^k ‖x⋆ − x_0‖²_A`, i.e. `‖e_k‖_A ≤ (1 − 1/κ)^{k/2} ‖e_0‖_A`: by optimality over the Krylov space
+    CG is at least as good as exact-line-search steepest descent in every body.  (The sharper Chebyshev bound
+    `2((√κ−1)/(√κ+1))^k` is not proved.) -/
+theorem C14_cg_rate (A : V →ₗ[𝕜] V) (b x0 xs : V) (hxs : A xs = b)
+    (hAs : ∀ x y, inner 𝕜 (A x) y = inner 𝕜 x (A y)) (m L : ℝ) (hm : 0 < m) (hmL : m ≤ L)
+    (hlo : ∀ v, m * ‖v‖ ^ 2 ≤ re (inner 𝕜 v (A v))) (hhi : ∀ v, re (inner 𝕜 v (A v)) ≤ L * ‖v‖ ^ 2) (k : Nat)
+    (hrun : ∀ j < k, (cgSeq (𝕜 := 𝕜) (⇑A) (fun v => v) b x0 j).num ≠ 0) :
+    re (inner 𝕜 (xs - (cgSeq (𝕜 := 𝕜) (⇑A) (fun v => v) b x0 k).x) (A (xs - (cgSeq (𝕜 := 𝕜) (⇑A) (fun v => v) b x0 k).x)))
+      ≤ (1 - m / L) ^ k * re (inner 𝕜 (xs - x0) (A (xs - x0))) :=
+  cg_rate A b x0 xs hxs hAs m L hm hmL hlo hhi k hrun
+
+-- non-vacuity of the spectral bounds: A = 2·id on ℝ has m = L = 2
+example : ∀ v : ℝ, (2 : ℝ) * ‖v‖ ^ 2 ≤ re (inner ℝ v (((2 : ℝ) • LinearMap.id : ℝ →ₗ[ℝ] ℝ) v)) ∧
+    re (inner ℝ v (((2 : ℝ) • LinearMap.id : ℝ →ₗ[ℝ] ℝ) v)) ≤ 2 * ‖v‖ ^ 2 := by
+  intro v
+  have : ‖v‖ ^ 2 = v * v := by rw [Real.norm_eq_abs, sq_abs]; ring
+  simp [inner, this]
+  constructor <;> nlinarith
+
 /-- **At most `dim V` iterations** (exact arithmetic).  For Hermitian positive-definite `A`, Hermitian `M`, any data and
     tolerances: `num_iter ≤ dim V`; and with `maxiter ≥ dim V` the disjunct "`maxiter` used up" of `C14_cg_exit` never
     applies — the returned `x` always satisfies the stopping rule `⟪r, M r⟫ ≤ max(tol‖b‖, atol)²`. -/
@@ -361,6 +382,28 @@ theorem C14_accuracy {m n : Nat} {R : Type} [Zero R] [Div R] [Max R] [LT R] [Dec
   intro lhs
   have h : s.lhsApply x = lhs := lhsApply_eq_spec s x
   exact ⟨h, by simp only [ATAD.accuracy, h]⟩
+
+/-- **`accuracy` for matrix arguments** (`rel_res` ravels, `norm` = Frobenius norm): `accuracy X B = rel_res((Aᴴ W A + D) X, B)` -/
+theorem C14_accuracy_matrix {m n k : Nat} {R : Type} [Zero R] [Div R] [Max R] [LT R] [DecidableLT R]
+    (s : ATAD K m n) (norm : Mat K n k → R) (x b : Mat K n k) :
+    let lhs : Mat K n k := fun i l =>
+      ((Matrix.of (conjT s.A) * Matrix.diagonal s.W * Matrix.of s.A + Matrix.of s.D.entry) * Matrix.of x : Matrix (Fin n) (Fin k) K) i l
+    s.accuracyM norm x b = relResOf (norm lhs) (norm b) (norm (fun i l => b i l - lhs i l)) := by
+  intro lhs
+  have h : s.lhsApplyM x = lhs := by
+    have := lhsApplyM_eq_spec s x
+    funext i l
+    exact congrFun (congrFun this i) l
+  simp only [ATAD.accuracyM, h]
+
+/-- **constructor checks of `ConvATADSolver`**: accepted exactly for `A = Sum ∘ CircularConvolve` summing over a single axis;
+    anything that is not such a composition is a `TypeError`, a tuple of axes a `ValueError` -/
+theorem C14_conv_validate (a : ConvArg) :
+    (convValidate a = .ok () ↔ (a.composed = true ∧ a.outerIsSum = true ∧ a.innerIsConv = true ∧ a.axisIsInt = true)) ∧
+    ((a.composed = false ∨ a.outerIsSum = false ∨ a.innerIsConv = false) → convValidate a = .error "type") ∧
+    (a.composed = true → a.outerIsSum = true → a.innerIsConv = true → a.axisIsInt = false → convValidate a = .error "value") := by
+  obtain ⟨c, o, i, x⟩ := a
+  cases c <;> cases o <;> cases i <;> cases x <;> simp [convValidate]
 
 theorem C14_accuracy_rhs2d {m n k : Nat} (s : ATAD K m n) (x : Mat K n k) :
     s.lhsApplyM x =
